@@ -105,8 +105,8 @@ pub fn wait_s(w: &Wait, elem: &str) -> String {
     match w {
         Wait::None => "none".into(),
         Wait::Mutex(_) => "mutex".into(),
-        Wait::Send(_) => format!("send({})", elem_kind(elem)),
-        Wait::Recv(_) => format!("recv({})", elem_kind(elem)),
+        Wait::Send(_) | Wait::SendT(_) => format!("send({})", elem_kind(elem)),
+        Wait::Recv(_) | Wait::RecvT(_) => format!("recv({})", elem_kind(elem)),
         Wait::Join(_) => "join".into(),
         Wait::Pool { timed, .. } => if *timed { "pool_timed".into() } else { "pool".into() },
         Wait::Gate(_) => "gate".into(),
@@ -144,7 +144,7 @@ pub fn sanity(r: &ExecResult) -> Vec<Finding> {
     if r.timeouts > 0 {
         f.push(Finding {
             sig: "timeout".into(),
-            msg: "a timed pool join expired (stop()/drop returned through its timeout)".into(),
+            msg: "a timed wait expired (a pool join inside stop()/drop, or a channel operation with a timeout, gave up instead of completing)".into(),
         });
     }
     for rec in &r.log {
@@ -293,7 +293,7 @@ pub fn hang_roots(r: &ExecResult) -> Vec<&verif_rt::Stuck> {
                     roots.push(s);
                 }
             }
-            Wait::Send(ch) => {
+            Wait::Send(ch) | Wait::SendT(ch) => {
                 // a sender on a full channel waits for that channel's consumer: the task(s) that
                 // have been receiving from it (e.g. the reducer loop for the dispatch queue)
                 let mut any = false;
